@@ -25,6 +25,9 @@ type c06Case struct {
 	Dir    string `json:"dir"`            // a2c (accessory encrypts) | c2a (controller-side session encrypts)
 	Start  uint64 `json:"start"`          // frame counters preset to this value through reflection (0 = untouched)
 	Pipe   bool   `json:"pipe,omitempty"` // the frames of all messages sit in one reader, Decrypt is called until it is drained
+	// Deferred: all messages are encrypted first and the returned readers are read afterwards; then all are decrypted
+	// and the returned readers read afterwards (a caller that queues what it got)
+	Deferred bool `json:"deferred,omitempty"`
 }
 
 var c06Secrets = [][32]byte{
@@ -243,6 +246,69 @@ func c06Exec(c *fw.Ctx, cas c06Case) {
 	c.Class(fmt.Sprintf("%s/%s/frames=%d", cas.Dir, cas.Reader, ctr))
 }
 
+// c06Deferred: what Encrypt and Decrypt return belongs to the caller — it stays what it is while the session goes on.
+func c06Deferred(c *fw.Ctx, cas c06Case) {
+	c.Eval(1)
+	secret := c06Secrets[cas.Secret]
+	a2c, _ := refctl.SessionKeys(secret[:])
+	enc, err := hccrypto.NewSecureSessionFromSharedKey(secret)
+	if err != nil {
+		c.Infra(err.Error())
+		return
+	}
+	dec, _ := hccrypto.NewSecureClientSessionFromSharedKey(secret)
+	sig := fmt.Sprintf("deferred/messages=%d", len(cas.Lens))
+	var msgs [][]byte
+	var encReaders []io.Reader
+	if p := guard(func() {
+		for i, n := range cas.Lens {
+			msg := fill(n, cas.Fill, byte(17*i+3))
+			msgs = append(msgs, msg)
+			r, e := enc.Encrypt(bytes.NewReader(msg))
+			if e != nil {
+				err = e
+				return
+			}
+			encReaders = append(encReaders, r)
+		}
+	}); p != nil || err != nil {
+		c.Report(sig+"/encrypt-fails", fmt.Sprintf("Encrypt fails: %v %v", p, err), cas)
+		return
+	}
+	var ctr uint64
+	var cts [][]byte
+	for i, r := range encReaders {
+		ct, _ := io.ReadAll(r)
+		cts = append(cts, ct)
+		if want := refctl.Frames(a2c, &ctr, msgs[i]); !bytes.Equal(ct, want) {
+			c.Report(sig+"/encrypted-result-changed", fmt.Sprintf("the reader Encrypt returned for message %d of %v, read after the later messages were encrypted, yields %d bytes that are not the frames of that message (%d bytes)", i, cas.Lens, len(ct), len(want)), cas)
+			return
+		}
+	}
+	var decReaders []io.Reader
+	if p := guard(func() {
+		for _, ct := range cts {
+			r, e := dec.Decrypt(bytes.NewReader(ct))
+			if e != nil {
+				err = e
+				return
+			}
+			decReaders = append(decReaders, r)
+		}
+	}); p != nil || err != nil {
+		c.Report(sig+"/decrypt-fails", fmt.Sprintf("Decrypt fails: %v %v", p, err), cas)
+		return
+	}
+	for i, r := range decReaders {
+		pt, _ := io.ReadAll(r)
+		if !bytes.Equal(pt, msgs[i]) {
+			c.Report(sig+"/decrypted-result-changed", fmt.Sprintf("the reader Decrypt returned for message %d of %v, read after the later messages were decrypted, yields %d bytes that are not that message (%d bytes)", i, cas.Lens, len(pt), len(msgs[i])), cas)
+			return
+		}
+	}
+	c.Class(sig)
+}
+
 // c06RefToHC: ciphertext produced by the reference decrypts under hc (both directions), message sequence.
 func c06RefToHC(c *fw.Ctx, cas c06Case) {
 	c.Eval(1)
@@ -379,7 +445,9 @@ func c06Run(c *fw.Ctx) {
 		if idx%5000 == 1 {
 			c.Sample(cas)
 		}
-		if cas.Pipe {
+		if cas.Deferred {
+			c06Deferred(c, cas)
+		} else if cas.Pipe {
 			c06Pipe(c, cas)
 		} else if ref {
 			c06RefToHC(c, cas)
@@ -430,6 +498,16 @@ func c06Run(c *fw.Ctx) {
 			}
 		}
 	}
+	// results consumed later: every sequence of 2 and 3 messages over 5 lengths
+	defLens := []int{0, 1, 700, 1024, 1500}
+	for _, a := range defLens {
+		for _, b := range defLens {
+			do(c06Case{Secret: 2, Lens: []int{a, b}, Fill: "pattern", Reader: "buffer", Dir: "a2c", Deferred: true}, false)
+			for _, d := range defLens {
+				do(c06Case{Secret: 2, Lens: []int{a, b, d}, Fill: "pattern", Reader: "buffer", Dir: "a2c", Deferred: true}, false)
+			}
+		}
+	}
 	// pipelined messages: all frames in one reader
 	pipeLens := []int{1, 5, 1023, 1024, 1025, 2048}
 	for _, a := range pipeLens {
@@ -462,13 +540,15 @@ func init() {
 	fw.Register(&fw.Check{
 		ID:     "C06",
 		Level:  "exploration",
-		Rule:   "exhaustive enumeration of payload lengths 0..4097 (plus 8191,8192,8193,65535,65536,65537) × 9 source readers (a fresh bytes.Buffer, one byte per Read, halves, 1000-byte chunks, data together with EOF, zero-length reads interleaved, ONE bytes.Buffer kept for the session and refilled per message, bytes.Reader, bufio.Reader) × directions, contents {pattern, zero, 0xFF} × 3 secrets on a length grid, all message sequences of length 2–3 over 7 boundary lengths, a 302-message counter run; every sequence of 2–3 messages over 6 lengths with all frames in ONE reader (pipelined peer), drained by repeated Decrypt calls, from a buffer and one byte per Read, produced by hc and by the reference; frame counters preset (reflection) to 2^32−2, 2^32, 2^32+1, 2^40, 2^63−1, 2^63, 2^64−5; each executed on hc's real sessions and compared byte-for-byte with the reference framing, then decrypted by hc's opposite end, and reference ciphertext decrypted by hc. distinct_nontrivial = distinct (direction, reader, frame count) classes Plus, in a subprocess built with a scheduling point before EVERY statement of hc's packages (textual insertion through go build -overlay): every interleaving with at most 1 (thorough 2) preemptions of pairs of operations on disjoint objects — and, where the property is about served requests, of pairs of handlers on two verified connections of one accessory touching different characteristics — each side must observe exactly what it observes when the two run one after the other (module-level mutable state is what makes them differ).",
+		Rule:   "exhaustive enumeration of payload lengths 0..4097 (plus 8191,8192,8193,65535,65536,65537) × 9 source readers (a fresh bytes.Buffer, one byte per Read, halves, 1000-byte chunks, data together with EOF, zero-length reads interleaved, ONE bytes.Buffer kept for the session and refilled per message, bytes.Reader, bufio.Reader) × directions, contents {pattern, zero, 0xFF} × 3 secrets on a length grid, all message sequences of length 2–3 over 7 boundary lengths, a 302-message counter run; every sequence of 2–3 messages over 5 lengths whose Encrypt / Decrypt results are read only after the later messages went through the session (what the calls return belongs to the caller); every sequence of 2–3 messages over 6 lengths with all frames in ONE reader (pipelined peer), drained by repeated Decrypt calls, from a buffer and one byte per Read, produced by hc and by the reference; frame counters preset (reflection) to 2^32−2, 2^32, 2^32+1, 2^40, 2^63−1, 2^63, 2^64−5; each executed on hc's real sessions and compared byte-for-byte with the reference framing, then decrypted by hc's opposite end, and reference ciphertext decrypted by hc. distinct_nontrivial = distinct (direction, reader, frame count) classes Plus, in a subprocess built with a scheduling point before EVERY statement of hc's packages (textual insertion through go build -overlay): every interleaving with at most 1 (thorough 2) preemptions of pairs of operations on disjoint objects — and, where the property is about served requests, of pairs of handlers on two verified connections of one accessory touching different characteristics — each side must observe exactly what it observes when the two run one after the other (module-level mutable state is what makes them differ).",
 		Run:    c06Run,
 		Budget: func(string) time.Duration { return 20 * time.Minute },
 		Replay: func(c *fw.Ctx, raw json.RawMessage) {
 			var cas c06Case
 			json.Unmarshal(raw, &cas)
-			if cas.Reader == "" {
+			if cas.Deferred {
+				c06Deferred(c, cas)
+			} else if cas.Reader == "" {
 				c06RefToHC(c, cas)
 			} else {
 				c06Exec(c, cas)
